@@ -203,6 +203,17 @@ impl<'a> Minimiser<'a> {
                 p = c;
             }
         }
+        // an injected fault may be movable to an earlier call
+        if let Some((at, st)) = p.fault_write {
+            for at2 in 0..at {
+                let mut c = p.clone();
+                c.fault_write = Some((at2, st));
+                if self.fails(&wrap(c.clone())) {
+                    p = c;
+                    break;
+                }
+            }
+        }
         if !p.flips.is_empty() {
             let mut c = p.clone();
             c.flips.clear();
